@@ -115,7 +115,7 @@ def gen_case(tape, tier):
                 continue
             ops.append({"op": k, "fn": fd["name"], "param": p, "value": tape.choose(2, "value"),
                         # two values that differ only in the tenth digit (or inside a list): still two different values
-                        "vkind": tape.pick(["str", "str", "float", "floatlist"], "value-kind")})
+                        "vkind": tape.pick(["str", "str", "float", "floatlist", "nan", "array"], "value-kind")})
         elif k == "replace":
             ntag += 1
             ops.append({"op": "replace", "fn": tape.pick(fnames, "fn"), "tag": f"'{ntag}"})
@@ -132,7 +132,7 @@ def gen_case(tape, tier):
             fd = next(f for f in w["functions"] if f["name"] == fname)
             par = tape.pick(fd["params"], "scenario-param")
             kind = tape.pick(["update_bound", "update_bound", "update_defaults", "swap_renames"], "scenario-kind")
-            vk = tape.pick(["str", "float", "floatlist"], "scenario-vkind")
+            vk = tape.pick(["str", "float", "floatlist", "nan", "array"], "scenario-vkind")
             v0 = tape.choose(2, "value")
             wipe = [{"op": "disk_wipe"}] if ctype == "disk" and tape.coin(0.5, "scenario-wipe") else []
             swappable = [q for q in fd["params"] if q in w["inputs"] and w["inputs"][q]["kind"] == "scalar"
@@ -150,7 +150,12 @@ def gen_case(tape, tier):
                        {"op": kind, "fn": fd["name"], "param": par, "value": 1 - v0, "vkind": vk}, {"op": "repeat"}]
     roots = [n for n, d in w["inputs"].items() if d["kind"] == "scalar"]
     array_roots = [r for r in roots if tape.coin(0.2, "array-root")]
+    # roots whose two values are NaN and a number, marked by a prefix so that every value lookup knows
+    array_roots += ["nan:" + r for r in roots if r not in array_roots and tape.coin(0.12, "nan-root")]
     case = {"part": "A", "workload": w, "cached": cached, "cache": cache, "ops": ops, "array_roots": array_roots}
+    if ((ctype in ("lru", "hybrid") and cache["shared"]) or (ctype == "disk" and (cache["shared"] or not cache["with_lru"]))) \
+            and tape.coin(0.25, "pipeline-roundtrip"):
+        case["roundtrip"] = True  # both pipelines went through cloudpickle before use (possible with shared caches only)
     if ctype in ("simple", "lru") and not cache["shared"] and tape.coin(0.25, "lazy"):
         case["lazy"] = True  # Pipeline(lazy=True): calls return lazy values, evaluated by the caller
     return case
@@ -262,12 +267,14 @@ def capacity(cache):
 
 
 def _val(name, i, array_roots=()):
+    if "nan:" + name in array_roots and i < 2:
+        return float("nan") if i == 0 else 1.5
     if name in array_roots and i < 2:
         # array-valued root argument: a square array and its transposed (non-contiguous) view - same shape and
         # dtype, different values, identical memory
         import numpy as np
 
-        a = np.arange(4).reshape(2, 2) + 10 * (1 + sorted(array_roots).index(name))
+        a = np.arange(4).reshape(2, 2) + 10 * (1 + sorted(array_roots).index(name))  # (position only makes them distinct)
         return a if i == 0 else a.T
     return f"{name}-{'ABCD'[i]}"
 
@@ -308,6 +315,14 @@ def run_A(case, tape, clear_on_mutation=False):
             except Exception:  # noqa: BLE001 - refused construction is not this property's business
                 probes["discarded_construction"] = 1
                 return
+            if case.get("roundtrip"):
+                import cloudpickle
+
+                try:
+                    cached, twin = cloudpickle.loads(cloudpickle.dumps(cached)), cloudpickle.loads(cloudpickle.dumps(twin))
+                    probes["pipeline_roundtrip"] = 1
+                except Exception:  # noqa: BLE001 - cannot be pickled in this configuration: use the objects as built
+                    probes["pipeline_roundtrip_refused"] = 1
             if cached.cache is None:
                 probes["no_cache_object"] = 1
             if case.get("lazy"):
@@ -423,6 +438,12 @@ def run_A(case, tape, clear_on_mutation=False):
                         val = 1.0 + 4e-10 * op2["value"]
                     elif op2.get("vkind") == "floatlist":
                         val = [2.0, 3.0 + 3e-10 * op2["value"]]
+                    elif op2.get("vkind") == "nan":
+                        val = float("nan") if op2["value"] == 0 else 2.5
+                    elif op2.get("vkind") == "array":
+                        import numpy as np
+
+                        val = np.array([1, 2 + op2["value"]])
                     def mut(p, _is_cached, kind=kind, val=val):
                         getattr(p[fn_out[op2["fn"]]], kind)({op2["param"]: val})
 
@@ -681,9 +702,12 @@ def run_case(case, exec_seed=None, exec_tape=None):
             # executable predicate for the known finding "mutations do not invalidate cached results": does the
             # violation vanish when the harness clears the cache at every mutation (the hypothetical repair)?
             C.begin_case()
-            v2, _p2, _s2 = run_A(case, Tape(recorded=tape.recorded()), clear_on_mutation=True)
+            try:
+                v2, _p2, _s2 = run_A(case, Tape(recorded=tape.recorded()), clear_on_mutation=True)
+            except Exception:  # noqa: BLE001 - the hypothetical repair itself fails (e.g. clear() raises): no answer
+                v2 = None
             for v in viol:
-                gone = not any((x["oracle"], x["kind"]) == (v["oracle"], v["kind"]) for x in v2)
+                gone = None if v2 is None else not any((x["oracle"], x["kind"]) == (v["oracle"], v["kind"]) for x in v2)
                 v["signature"]["vanishes_with_cache_clear_on_mutation"] = gone
     else:
         viol, probes, sim = run_B(case, tape)
